@@ -415,7 +415,34 @@ def ref_entry(fn) -> dict:
     names = local_names(fn)
     sites = [(n, k, _canon_with(v, {}, set())) for n, k, v in binding_sites(fn) if n in names]
     return {"locals": names, "sites": sites, "digest": digest(fn), "comps": [names_ for _, names_ in comp_sites(fn)],
-            "quants": quantifier_sites(fn), "params_read": params_read(fn)}
+            "quants": quantifier_sites(fn), "params_read": params_read(fn), "calls": call_shapes(fn),
+            "params": [x.arg for x in fn.args.posonlyargs + fn.args.args + fn.args.kwonlyargs]}
+
+
+def call_shapes(fn) -> list:
+    """[callee text, number of positional arguments, sorted keyword names, has *args/**kwargs] for every call of the function's own code, in source order"""
+    out = []
+    for n in _own_scope_walk_all(fn):
+        if isinstance(n, ast.Call):
+            try:
+                callee = ast.unparse(n.func)
+            except Exception:
+                continue
+            if len(callee) > 80:
+                continue
+            star = any(isinstance(a, ast.Starred) for a in n.args) or any(k.arg is None for k in n.keywords)
+            out.append([callee, len(n.args), sorted(k.arg for k in n.keywords if k.arg), star])
+    return out
+
+
+def _own_scope_walk_all(fn):
+    todo = list(reversed(fn.body))
+    while todo:
+        n = todo.pop()
+        if isinstance(n, (ast.FunctionDef, ast.AsyncFunctionDef, ast.ClassDef)):
+            continue
+        yield n
+        todo.extend(reversed(list(ast.iter_child_nodes(n))))
 
 
 def quantifier_sites(fn) -> list:
